@@ -82,6 +82,11 @@ pub mod pt {
     pub const PS_BASIC_FILL: u32 = 342;
     // lock kinds
     pub const LOCK_TX_STATE: u32 = 400;
+    pub const LOCK_TX_STATE_FINALITY: u32 = 410;
+    pub const LOCK_TX_STATE_EXECUTE: u32 = 411;
+    pub const LOCK_TX_STATE_VALIDATE: u32 = 412;
+    pub const LOCK_TX_STATE_EXECUTION_TASK: u32 = 413;
+    pub const LOCK_TX_STATE_NEXT_VALIDATION: u32 = 414;
     pub const LOCK_TX_RESULT: u32 = 401;
     pub const LOCK_DEP_STATE: u32 = 402;
     pub const LOCK_DEP_AFFECT: u32 = 403;
